@@ -451,9 +451,9 @@ pub fn check_safe(c: &Clause) -> Result<(), Reject> {
 // ---------------------------------------------------------------------------------------
 // evaluation
 
-type Env = BTreeMap<String, V>;
+pub type Env = BTreeMap<String, V>;
 
-fn eval_arith(a: &Arith, env: &Env) -> Result<Option<i64>, Reject> {
+pub fn eval_arith(a: &Arith, env: &Env) -> Result<Option<i64>, Reject> {
     Ok(match a {
         Arith::T(Term::Var(v)) => env.get(v).and_then(V::as_i),
         Arith::T(Term::C(c)) => c.as_i(),
@@ -470,7 +470,7 @@ fn eval_arith(a: &Arith, env: &Env) -> Result<Option<i64>, Reject> {
     })
 }
 
-fn term_val<'a>(t: &'a Term, env: &'a Env) -> Option<&'a V> {
+pub fn term_val<'a>(t: &'a Term, env: &'a Env) -> Option<&'a V> {
     match t {
         Term::Var(v) => env.get(v),
         Term::C(c) => Some(c),
@@ -479,7 +479,7 @@ fn term_val<'a>(t: &'a Term, env: &'a Env) -> Option<&'a V> {
 }
 
 /// match `atom` against `tup` extending env; returns None on mismatch
-fn unify(atom: &Atom, tup: &Tup, env: &Env) -> Option<Env> {
+pub fn unify(atom: &Atom, tup: &Tup, env: &Env) -> Option<Env> {
     if atom.args.len() != tup.len() {
         return None;
     }
